@@ -193,43 +193,11 @@ def isolation(chk, P):
            expect="only _self_-prefixed attributes are assigned on an ObjectProxy", key="C13.O4|proxy-stores")
 
 
-class Args(object):
-    def __init__(self, inc, exc):
-        self.inc = inc
-        self.exc = exc
-
-    def _v(self, x):
+def Args(P, inc, exc):
+    def v(x):
         return NONE if x is None else ListV([Const(s) for s in x], "list")
-
-    def get_include_species(self, I):
-        return self._v(self.inc)
-
-    def get_exclude_species(self, I):
-        return self._v(self.exc)
-
-    def get_config_file(self, I):
-        return W.param("config_file")
-
-    def get_override_item(self, I):
-        return NONE
-
-    def get_add_item(self, I):
-        return NONE
-
-    def get_remove_item(self, I):
-        return NONE
-
-    def get_list_items(self, I):
-        return FALSE
-
-    def get_list_item_labels(self, I):
-        return FALSE
-
-    def get_item_value(self, I):
-        return NONE
-
-    def get_out_filename(self, I):
-        return Const("out")
+    given = {"include_species": v(inc), "exclude_species": v(exc), "config_file": W.param("config_file"), "out_filename": Const("out")}
+    return W.ArgsModel(W.cli_defaults(P), given)
 
 
 def cli(chk, P):
@@ -249,7 +217,7 @@ def cli(chk, P):
         I.hooks[FCP + ":FilteredConfigParser.__init__"] = fcp_init
         I.hooks["atsim.potentials.tools.potable._actions:action_tabulate"] = lambda i, fv, a, k, n: NONE
         I.x_sys_exit = lambda args, kwargs, node, env: NONE
-        I.run(fi, [W.param("p"), PyObjV(Args(inc, exc))])
+        I.run(fi, [W.param("p"), PyObjV(Args(P, inc, exc))])
         desc = "--include-species %s" % inc if inc is not None else ("--exclude-species %s" % exc if exc is not None else "no filter option")
         if inc is None and exc is None:
             ok = "filter" not in seen
